@@ -1183,10 +1183,10 @@ impl GenericIfData {
                 writer.add_integer(value.0, value.1, *offset);
             }
             Self::Float(offset, value) => {
-                writer.add_float(*value, *offset);
+                writer.add_float_ifdata(*value, *offset);
             }
             Self::Double(offset, value) => {
-                writer.add_float(*value, *offset);
+                writer.add_float_ifdata(*value, *offset);
             }
             Self::String(offset, text) => {
                 writer.add_quoted_string(text, *offset);
